@@ -1,8 +1,92 @@
 import CnlDriver.CS
-/-! `C05` driver table (stub). -/
+import CnlModel.Elastic
+/-! `C05` table: elastic_integer operators over built-in narrowest types. -/
 namespace Cnl.Drv
-open Cnl
+open Cnl Cnl.Elastic
 
-def checkC05 (_toks : List String) (_res : String) : Option Verdict := none
+def showENum (x : ENum) : String :=
+  let rep := match repTy x.digits x.narrowest with
+    | some r => r.toString
+    | none => "?"
+  s!"el({x.digits},{x.narrowest.toString})/{rep}:{x.value}"
+
+/-- parse `el(D,N)/rep:v` into digits, narrowest signedness and value -/
+def parseElRes (res : String) : Option (Nat × Bool × Int) :=
+  match res.splitOn ":" with
+  | [ty, v] =>
+    match (ty.splitOn "/").head?.bind (fun t => parseTy t) with
+    | some (.el d (.int n)) => v.toInt?.map (fun v => (d, n.signed, v))
+    | _ => none
+  | _ => none
+
+def withinDigits (d : Nat) (signed : Bool) (v : Int) : Bool :=
+  decide ((if signed then -(2^d - 1 : Int) else 0) ≤ v) && decide (v ≤ 2^d - 1)
+
+def exactBin (op : BinOp) (l r : Int) : Int :=
+  match op with
+  | .add => l + r | .sub => l - r | .mul => l * r | .div => l.tdiv r | .mod => l.tmod r
+  | _ => 0
+
+/-- known-defect class of an input (none after the repairs) -/
+def c05Class (op : BinOp) (x y : ENum) : String :=
+  match op with
+  | .div | .mod =>
+    match policy op x.digits x.narrowest.signed y.digits y.narrowest.signed with
+    | some (d, sg) =>
+      match repTy d ⟨max x.narrowest.bits y.narrowest.bits, sg⟩ with
+      | some rep => if max x.digits y.digits > rep.digits then "C05.divmod_operands_narrowed" else ""
+      | none => ""
+    | none => ""
+  | _ => ""
+
+def checkC05 (toks : List String) (res : String) : Option Verdict :=
+  match toks with
+  | ["bin", op, dl, nl, dr, nr, l, r] => do
+    let op ← parseBinOp op; let dl ← dl.toNat?; let nl ← parseIntTy nl; let dr ← dr.toNat?; let nr ← parseIntTy nr
+    let l ← l.toInt?; let r ← r.toInt?
+    let x : ENum := ⟨dl, nl, l⟩; let y : ENum := ⟨dr, nr, r⟩
+    let m := binOp op x y
+    let guard := decide x.InRange && decide y.InRange && !((op == .div || op == .mod) && r == 0)
+    let spec : Option Bool := if !guard then none else
+      match parseElRes res with
+      | some (d, sg, v) => some (v == exactBin op l r && withinDigits d sg v)
+      | none => some false
+    some { model := showRes showENum m, spec := spec, cls := c05Class op x y, branch := "bin/" ++ toks[1]!, nontrivial := guard }
+  | ["cmp", op, dl, nl, dr, nr, l, r] => do
+    let op ← parseCmpOp op; let dl ← dl.toNat?; let nl ← parseIntTy nl; let dr ← dr.toNat?; let nr ← parseIntTy nr
+    let l ← l.toInt?; let r ← r.toInt?
+    let x : ENum := ⟨dl, nl, l⟩; let y : ENum := ⟨dr, nr, r⟩
+    let want : Bool := match op with
+      | .lt => decide (l < r) | .le => decide (l ≤ r) | .gt => decide (l > r) | .ge => decide (l ≥ r)
+      | .eq => decide (l = r) | .ne => decide (l ≠ r)
+    let guard := decide x.InRange && decide y.InRange
+    some { model := showRes showBool (cmp op x y), spec := if guard then some (showBool want == res) else none,
+           branch := "cmp/" ++ toks[1]!, nontrivial := guard }
+  | ["neg", dl, nl, l] => do
+    let dl ← dl.toNat?; let nl ← parseIntTy nl; let l ← l.toInt?
+    let x : ENum := ⟨dl, nl, l⟩
+    let spec : Option Bool := if !decide x.InRange then none else
+      match parseElRes res with
+      | some (d, sg, v) => some (v == -l && withinDigits d sg v)
+      | none => some false
+    some { model := showRes showENum (neg x), spec := spec, branch := "neg", nontrivial := decide x.InRange }
+  | ["shlc", dl, nl, k, l] => do
+    let dl ← dl.toNat?; let nl ← parseIntTy nl; let k ← k.toNat?; let l ← l.toInt?
+    let x : ENum := ⟨dl, nl, l⟩
+    let spec : Option Bool := if !decide x.InRange then none else
+      match parseElRes res with
+      | some (d, sg, v) => some (v == l * 2^k && withinDigits d sg v)
+      | none => some false
+    some { model := showRes showENum (shlConst x k), spec := spec, branch := "shlc", nontrivial := decide x.InRange }
+  | ["shrc", dl, nl, k, l] => do
+    let dl ← dl.toNat?; let nl ← parseIntTy nl; let k ← k.toNat?; let l ← l.toInt?
+    let x : ENum := ⟨dl, nl, l⟩
+    let spec : Option Bool := if !decide x.InRange then none else
+      match parseElRes res with
+      | some (d, sg, v) => some (v == l / 2^k && withinDigits d sg v)
+      | none => some false
+    let cls := if l < 0 && l / 2^k < -(2^(dl - k) - 1 : Int) then "C05.shr_negative_below_declared_range" else ""
+    some { model := showRes showENum (shrConst x k), spec := spec, cls := cls, branch := "shrc", nontrivial := decide x.InRange }
+  | _ => none
 
 end Cnl.Drv
